@@ -128,7 +128,6 @@ Definition data_and_fin (t : table) (c : conn) (g : seg) (started : option N) : 
   let c := if (c_una c <=? g_ack g) && (g_ack g <=? c_nxt c) then set_seq c (g_ack g) (c_nxt c) (c_rcv c) else c in
   let c := match c_st c with
            | FinWait1 => set_st c FinWait2
-           | FinWait2 => set_st c TimeWait
            | _ => c
            end in
   let accept := match c_st c with Estab | FinWait1 | FinWait2 => true | _ => false end in
@@ -142,7 +141,7 @@ Definition data_and_fin (t : table) (c : conn) (g : seg) (started : option N) : 
       else (c2, [], fl)
     else (c, [], None) in
   if hasf (g_flags g) FIN then
-    let c := set_seq c (c_una c) (c_nxt c) (g_seq g) in
+    let c := set_seq c (c_una c) (c_nxt c) (u32 (g_seq g + zlen (g_payload g))) in
     match c_st c with
     | SynRcvd | Estab =>
         let c1 := set_seq c (c_una c) (c_nxt c) (u32 (c_rcv c + 1)) in
